@@ -272,7 +272,7 @@ func c16Run(c *ev.Ctx) {
 						c.Eval(1)
 						c.Distinct(1)
 						if f := c16Check(kk, frame, content); f != nil {
-							c.Confirm(f, func() *ev.Finding {
+							c.ConfirmFree(f, kk.Read.Conc > 1, func() *ev.Finding {
 								fr, ct, ok := buildDepFrame(kk.Plan)
 								if !ok {
 									return nil
